@@ -38,6 +38,11 @@ def required : List (String × String × String × String × List String) := [
   ("lp", "Convex", "__add__", "ValueError", ["model", "other"]),
   ("lp", "DecAffine", "expcone", "ValueError", ["model", "x", "Vars"]),
   ("lp", "DecAffine", "expcone", "ValueError", ["model", "z", "Vars"]),
+  -- (guards added by a later repair: solved rules / expressions evaluated at or queried for a foreign random variable)
+  ("lp", "RoAffine", "__call__", "ValueError", ["rvar", "model", "rand_model"]),
+  ("lp", "DecRoAffine", "__call__", "ValueError", ["rvar", "model", "rand_model"]),
+  ("lp", "DecVar", "get", "ValueError", ["rvar", "model", "sup_model"]),
+  ("lp", "DecRule", "get", "ValueError", ["rvar", "model", "sup_model"]),
   -- an objective cannot be redefined; objective expressions must be scalar
   ("ro", "Model", "min", "SyntaxError", ["obj"]), ("ro", "Model", "max", "SyntaxError", ["obj"]),
   ("ro", "Model", "minmax", "SyntaxError", ["obj"]), ("ro", "Model", "maxmin", "SyntaxError", ["obj"]),
